@@ -384,7 +384,7 @@ func containsText(n ast.Node, text string) bool {
 
 // waitResponseLockFacts classifies every exit of the wait loop taken while c.rlock is held.
 func waitResponseLockFacts(fd *ast.FuncDecl) (facts map[string]bool, err error) {
-	facts = map[string]bool{"peekErr": false, "noProgress": false, "take": false, "yield": false, "leave": false}
+	facts = map[string]bool{"peekErr": false, "noProgress": false, "take": false, "yield": false, "leave": false, "desyncCloses": false}
 	recv := "c" // the receiver's name, whatever it is called
 	if fd.Recv != nil && len(fd.Recv.List) == 1 && len(fd.Recv.List[0].Names) == 1 {
 		recv = fd.Recv.List[0].Names[0].Name
@@ -429,10 +429,11 @@ func waitResponseLockFacts(fd *ast.FuncDecl) (facts map[string]bool, err error) 
 				}
 				kind := ""
 				switch {
-				case containsText(block, recv+".conn.Close"):
-					kind = "peekErr"
 				case containsText(block, "io.ErrNoProgress"):
 					kind = "noProgress"
+					facts["desyncCloses"] = containsText(block, recv+".conn.Close")
+				case containsText(block, recv+".conn.Close"):
+					kind = "peekErr"
 				case containsText(block, "&"+recv+".rlock"):
 					kind = "take"
 					unlocked = !unlocked // handing the lock over: it must NOT be unlocked here
@@ -452,12 +453,13 @@ func waitResponseLockFacts(fd *ast.FuncDecl) (facts map[string]bool, err error) 
 					}
 				}
 				switch {
-				case containsText(block, recv+".conn.Close"):
-					seen["peekErr"]++
-					facts["peekErr"] = unlocked
 				case containsText(block, "io.ErrNoProgress"):
 					seen["noProgress"]++
 					facts["noProgress"] = unlocked
+					facts["desyncCloses"] = containsText(block, recv+".conn.Close")
+				case containsText(block, recv+".conn.Close"):
+					seen["peekErr"]++
+					facts["peekErr"] = unlocked
 				case containsText(block, "&"+recv+".rlock"):
 					seen["take"]++
 					facts["take"] = !unlocked
@@ -1047,8 +1049,8 @@ func extractConnLegacy(repo, root string) error {
 		return fmt.Errorf("untranslated: %v", err)
 	}
 	b.WriteString("/-- conn.go/batch.go: on which exit paths the Conn's read lock (rlock) is released / handed over -/\n")
-	fmt.Fprintf(&b, "def lockFacts : LockFacts := { peekErr := %v, noProgress := %v, yield := %v, take := %v, leave := %v, doBody := %v, apiVersions := %v, batchHandover := %v, batchClose := %v }\n\n",
-		wf["peekErr"], wf["noProgress"], wf["yield"], wf["take"], wf["leave"], unlockAfter(connFns["do"], "waitResponse", false),
+	fmt.Fprintf(&b, "def lockFacts : LockFacts := { peekErr := %v, noProgress := %v, desyncCloses := %v, yield := %v, take := %v, leave := %v, doBody := %v, apiVersions := %v, batchHandover := %v, batchClose := %v }\n\n",
+		wf["peekErr"], wf["noProgress"], wf["desyncCloses"], wf["yield"], wf["take"], wf["leave"], unlockAfter(connFns["do"], "waitResponse", false),
 		unlockAfter(connFns["ApiVersions"], "waitResponse", false), unlockAfter(connFns["ReadBatchWith"], "waitResponse", true),
 		batchCloseUnlocks(connFns["Batch.close"]))
 	// parsers that are not readFrom methods: read.go fetch headers, conn.go element callbacks
